@@ -13,7 +13,7 @@ THEOREMS = ["Gozod.C02." + t for t in [
     "c02_struct", "c02_union", "c02_xor", "c02_inter_partial", "c02_du", "c02_du_missing", "c02_lazy_partial",
     "c02_nil_path", "engine_nil", "engine_nonNil",
     "c02_union_full_false", "c02_inter_full_false", "c02_lazy_full_false", "c02_lazy_nil_false",
-    "c02_nilslice_false", "c02_object_catchall_false",
+    "c02_nilslice_false", "c02_object_catchall",
     "seen_nil", "acc_seen", "c02_slice_seen", "c02_callable_partial", "c02_unasked_member_false", "c02_array_rest_dropped",
     # round 4: discriminated union over its option list (index construction, lookup THEN fallback)
     "discInsert_some", "discBuildFrom_some", "buildDiscMap_some", "buildDiscMap_none", "lookup_entries",
